@@ -40,7 +40,13 @@
     case  = (22 commitbytes cut nparents) Commit.ReadFrom on the first cut bytes of a valid commit
     case  = (23 tablebytes cut)           Table.ReadFrom on the first cut bytes of a valid table
     obs   = (0 value) | (1) | (2)            values as for C18
-    case  = (20 packfile ((content sum) ...) ((compressed decoded) ...) ((blocksum (pk ...) idxsum) ...))
+    case  = (30..35 stored missing [(decoded)]) objects.GetCommit / GetTable / GetBlock / GetBlockIndex /
+       GetTableIndex / GetTableProfile over a store holding [stored] under the key (missing = 1:
+       no such key); for 32 / 33 the 4th element is () when s2.Decode fails, else (decoded bytes)
+    case  = (20 packfile ((content sum) ...) ((compressed decoded) ...) ((blocksum (pk ...) idxsum) ...) [(a b c)])
+       optional store faults: a-1 = index of the Store.Set that fails, b-1 = key prefix all of
+       whose Sets fail (0 blk/ 1 blkidx/ 2 tbl/ 3 tblidx/ 4 tblsum/ 5 com/), c-1 = index of the
+       Store.Get that fails; 0 = none
        ObjectReceiver.Receive on an empty store; the three tables are meow.Checksum,
        s2.Decode (absent = corrupt) and the block-index sums, computed by the harness.
     obs   = (status (blk ...) (blkidx ...) (tbl ...) (tblidx ...) (tblsum ...) (com ...))
@@ -230,7 +236,11 @@ Definition run_receive (c : tree) : tree :=
   let imap := d_list d_idx (d_nth 4 c) in
   let H := fun b => match assoc hmap b with Some s => s | None => [] end in
   let unz := assoc zmap in
-  let '(r, st, _) := receive H unz (assoc_idx imap) go_parse_int go_parse_tz pcap empty_store pack in
+  let dopt := fun t => match d_N t with 0 => None | n => Some (N.to_nat (n - 1)) end in
+  let fp := mk_faults (dopt (d_nth 0 (d_nth 5 c)))
+                      (match d_N (d_nth 1 (d_nth 5 c)) with 0 => None | n => Some (n - 1) end)
+                      (dopt (d_nth 2 (d_nth 5 c))) in
+  let '(r, st, _) := receive H unz (assoc_idx imap) go_parse_int go_parse_tz pcap fp empty_store pack in
   Node (Leaf (match r with Err CFuel => 9 | _ => status r end) :: t_store st).
 
 Definition run_C17 (c : tree) : tree :=
@@ -261,5 +271,17 @@ Definition run_C17 (c : tree) : tree :=
   | 22%nat => t_res17 t_commit (on_bytes (commit_read go_parse_int go_parse_tz)
                                          (firstn (d_nat (d_nth 2 c)) b))
   | 23%nat => t_res17 t_table (on_bytes (table_read pcap) (firstn (d_nat (d_nth 2 c)) b))
-  | _ => run_receive c
+  | 20%nat => run_receive c
+  | _ =>
+      (* persistence readers: (entry stored missing [decoded]) *)
+      let v := if d_bool (d_nth 2 c) then None else Some b in
+      let unz := fun _ : bytes => d_opt d_bytes (d_nth 3 c) in
+      match entry with
+      | 30%nat => t_res17 t_commit (fst (get_commit go_parse_int go_parse_tz true v))
+      | 31%nat => t_res17 t_table (fst (get_table pcap true v))
+      | 32%nat => t_res17 t_block (fst (load_block unz pcap v))
+      | 33%nat => t_res17 t_bidx (fst (load_block_index unz v))
+      | 34%nat => t_res17 t_block (fst (get_table_index pcap v))
+      | _ => t_res17 t_profile (fst (get_table_profile pcap v))
+      end
   end.
